@@ -435,10 +435,55 @@ def run():
     if not os.environ.get("VERIF_SKIP_KANI"):
         from obligations import C01_kani
         C01_kani.add(rep, "C15")
+    guarded("diagnostics of a failing transform", lambda: rep.add(diagnostics_obligation(prog, engs, fn)))
     return rep
 
 
 _REPLAY = {}
+
+
+CUTS = r"(String::truncate|String::split_off|String::drain|String::replace_range|String::remove|String::insert(_str)?|str::split_at(_mut)?|<impl str>::split_at|as (std::ops::)?Index(Mut)?<.*Range.*>>::index(_mut)?|::get_unchecked|::from_utf8_unchecked)$"
+BOUNDARY = r"is_char_boundary$|floor_char_boundary$|ceil_char_boundary$|char_indices$"
+
+
+def diagnostics_obligation(prog, engs, fn):
+    """the text a failing transform child printed on stderr is external input: the code that formats it into the warning must not cut
+    it at a byte index (a cut inside a multi-byte character panics inside a pool thread and aborts the whole run)"""
+    fmtf = [f for n, f in prog.fns.items() if re.search(r"(^|::)format_output_stream$", n)]
+    o = Obligation("format_output_stream: the child's stderr text is never cut at a byte offset (no panic on multi-byte text)", "E2 mirsym/z3", [],
+                   "loop-free; string primitives are leaves")
+    o.key = "hash_transformed:diagnostics"
+    if len(fmtf) != 1:
+        o.verdict, o.detail = "inconclusive", "format_output_stream: %d candidates" % len(fmtf)
+        return o
+    eng = oblig.engine(prog, unroll=2, inline=None, extra=optsum.SUMMARIES)
+    engs.append(eng)
+    ps = eng.run(fmtf[0], args=[Lazy("stderr_text", fmtf[0].args[0][1])])
+    verdict, detail, n = "holds", "", 0
+    for p in ps:
+        n += 1
+        if p.status in ("abort", "bound"):
+            verdict, detail = "inconclusive", "path %s" % p.status
+            continue
+        evs = [e for e in p.events if e.kind == "call"]
+        for i, e in enumerate(evs):
+            if re.search(CUTS, e.callee) and not any(re.search(BOUNDARY, x.callee) for x in evs[:i]):
+                o.queries += 1
+                if eng.check(*p.pc) == z3.sat:
+                    verdict = "violated"
+                    detail = "%s cuts the text at a byte offset without a character-boundary check" % e.callee[-50:]
+                    o.cex = {"call": e.callee, "path_condition": [str(c)[:100] for c in p.pc][:5]}
+        if p.status == "panic":
+            o.queries += 1
+            if eng.check(*p.pc) == z3.sat:
+                verdict, detail = "violated", "a feasible path panics: %s" % p.note[:100]
+                o.cex = {"panic": p.note[:200]}
+    if verdict == "holds" and n == 0:
+        verdict, detail = "inconclusive", "vacuous"
+    o.functions = oblig.fnames(eng)
+    o.verdict, o.detail = verdict, detail
+    o.stats = {"paths": n, "states": n, "transitions": eng.stats.get("blocks", 0)}
+    return o
 
 
 def replay(o, ctx):
